@@ -9,7 +9,8 @@ from ..seams import F, T, reset_world
 from ..seams import LIB_ERRORS
 from ..core import real
 from ..oracle import (L, ed_verify, sig_message, base_mult, point_add, pubkey_of_seed,
-                      scalar_to_int, int_to_scalar, as_key_arg, PREFIXES)
+                      scalar_to_int, int_to_scalar, as_key_arg, PREFIXES,
+                      LOCK_FORMS, LIMITS, in_form)
 
 PID = 'C17'
 ISOLATE = True      # one forked process per run: nothing a run does to process-global
@@ -115,6 +116,7 @@ def gen_exchange(rng, cell):
     v, tw, co, fl = cell
     ex = {'variant': v, 'tweak_class': tw, 'tweak': tweak_bytes(rng, tw).hex(),
           'keys': rng.choice(['bytes', 'bytes', 'object']), 'prefix': rng.choice(PREFIXES),
+          'form': rng.choice(LOCK_FORMS), 'limits': rng.below(len(LIMITS)),
           # one builder exchange in five runs under a signature-extension plugin that is
           # configured through the sign / witness script prefix
           'sigext': rng.choice([None, None, None, None, '01', '02', 'ff'])
@@ -319,9 +321,18 @@ def run_check(e, R, sa, Xv, Tv, mv, sfv, prefix=False):
             # deprecated single lock: the check is the first half of the lock; use the
             # two-script check script for B's standalone validation
             s1, _ = T.make_adapter_locks_pub(Xv, Tv, e.flags)
-        return F.run_auth_scripts([w, s1], dict(sfv)) is True
+        return F.run_auth_scripts([w, _fm(e, s1)], dict(sfv), **_lim(e)) is True
     except LIB_ERRORS:
         return False
+
+
+def _fm(e, script):
+    """the lock in the form this exchange's parties keep it in (oracle.LOCK_FORMS)"""
+    return in_form(script, e.spec.get('form', 'object'))
+
+
+def _lim(e):
+    return LIMITS[e.spec.get('limits', 0)]
 
 
 def run_decrypt(e, R, sa, scalar):
@@ -356,7 +367,7 @@ def spend(e, sig, run):
         sf = dict(e.sf)
         item = sig + (bytes.fromhex(e.flags) if int(e.flags, 16) else b'')
     try:
-        r = F.run_auth_scripts([e.ext_code + pb(item), lock], sf)
+        r = F.run_auth_scripts([e.ext_code + pb(item), _fm(e, lock)], sf, **_lim(e))
     except BaseException:       # noqa
         run.aux_auth_raised += 1
         return False
@@ -370,14 +381,17 @@ def one_shot(e, R, sa, run):
     try:
         if e.v == 'three_script':
             s1, s2, s3 = T.make_adapter_locks_prv(e.X, e.t, e.flags)
-            return F.run_auth_scripts([w, s2, T.compile_script(glue), s3], dict(e.sf)) is True
+            return F.run_auth_scripts([w, _fm(e, s2), T.compile_script(glue), _fm(e, s3)],
+                                      dict(e.sf), **_lim(e)) is True
         if e.v == 'deprecated':
             lock = T.make_adapter_lock_prv(e.X, e.t, e.flags)
-            return F.run_auth_scripts([e.ext_code + pb(e.t) + pb(sa) + pb(R), lock], dict(e.sf)) is True
+            return F.run_auth_scripts([e.ext_code + pb(e.t) + pb(sa) + pb(R), _fm(e, lock)],
+                                      dict(e.sf), **_lim(e)) is True
         if e.v == 'two_script':
             s1, s2 = T.make_adapter_locks_pub(e.X, e.T, e.flags)
             dec = T.make_adapter_decrypt(e.t)
-            return F.run_auth_scripts([w, dec, T.compile_script(glue), s2], dict(e.sf)) is True
+            return F.run_auth_scripts([w, _fm(e, dec), T.compile_script(glue), _fm(e, s2)],
+                                      dict(e.sf), **_lim(e)) is True
     except BaseException:       # noqa
         run.aux_auth_raised += 1
         return False
